@@ -13,6 +13,8 @@ var Current = &Impl{
 	Merger:    ice.Merge,
 	Load:      ice.Load,
 	PoolProbe: ice.VerifPoolProbe,
+
+	InterimPostings: ice.VerifInterimPostings,
 }
 
 // Reference is the frozen copy of the pinned snapshot (before any fix).
